@@ -389,6 +389,9 @@ _ICMP = {'oeq': 'eq', 'une': 'ne', 'one': 'ne', 'olt': 'slt', 'ole': 'sle', 'ogt
          'ult': 'slt', 'ugt': 'sgt', 'ule': 'sle', 'uge': 'sge', 'ueq': 'eq'}
 
 
+_ELEM_T = {'double': ('double',), 'i64': ('int', 64), 'i32': ('int', 32), 'i8': ('int', 8)}
+
+
 # ---------------------------------------------------------------- machine
 class Machine:
     def __init__(s, mod, mode='fork', timeout_ms=20000):
@@ -522,12 +525,14 @@ class Machine:
         return s.gptr(o[1])
 
     # --- memory
-    def check(s, p, size, write):
+    def check(s, p, size, write, t=None):
         r = p.r
         if r is None:
             raise MemError('null dereference (%s)' % ('store' if write else 'load'))
         if r.freed:
             raise MemError('use after free ' + r.name)
+        if r.elem is not None and t is not None and t != _ELEM_T[r.elem]:
+            raise MemError('type confusion: %s accessed as %s but holds %s' % (r.name, t, r.elem))
         off = p.off
         if s.acclog is not None and r.born < s.acc_epoch:
             s.acclog.append((r, off, size, write, list(s.pc)))
@@ -540,7 +545,7 @@ class Machine:
                 'store' if write else 'load', r.name, off, size, r.size))
 
     def load(s, t, p):
-        s.check(p, sizeof(t), False)
+        s.check(p, sizeof(t), False, t)
         r = p.r; r.reads += 1; off = p.off
         if isinstance(off, z3.ExprRef) or r.arr is not None:
             if r.arr is None:
@@ -568,7 +573,7 @@ class Machine:
         return None   # poison: an error only if used
 
     def store(s, t, v, p):
-        s.check(p, sizeof(t), True)
+        s.check(p, sizeof(t), True, t)
         r = p.r; r.writes += 1; off = p.off
         if isinstance(off, z3.ExprRef) or r.arr is not None:
             if v is None:
